@@ -94,8 +94,12 @@ fn one(cf: Fmt, cv: u32, cforced: bool, of: Fmt, ov: u32, oforced: bool, content
                 let v = open(&db, cf, cv, cforced).map_err(|e| ("C14.refuse-noeffect".to_string(), format!("after a refused import the original import fails: {e}")))?;
                 if v.collect() != expect { return Err(("C14.refuse-noeffect".into(), format!("after a refused import the data changed: {:?}", v.collect()))); }
             }
-            (false, true, Ok(v)) => {
+            (false, true, Ok(mut v)) => {
                 if !v.collect().is_empty() { return Err((if mixed_entry { "C14.force-mixed-entry" } else { "C14.force" }.into(), format!("forced import on a mismatch returned {:?}, expected an empty vector", v.collect()))); }
+                // "empty" means nothing of the discarded vector is left, auxiliary regions included: fresh values read back as pushed
+                let fresh = vec![7u32, 8, 9];
+                v.push_flush(&fresh, false).map_err(|e| ("C14.force-fresh".to_string(), format!("after a forced reset, pushing and flushing fresh values failed: {e}")))?;
+                if v.collect() != fresh { return Err(("C14.force-fresh".into(), format!("after a forced reset, fresh values {:?} read back as {:?}: state of the discarded vector survived", fresh, v.collect()))); }
             }
             (false, true, Err(e)) => return Err(("C14.force".into(), format!("forced import on a mismatch failed: {e}"))),
         }
